@@ -530,7 +530,9 @@ theorem C07_slots (ops : NumOps α) (k : Nat) (hk : 0 < k) (prog : List (COp α)
 
 /-! ## non-vacuity -/
 
-/-- a concrete program: two leaves sharing a counter series and a gauge series with equal timestamps -/
+/-- a concrete program: two leaves sharing a counter series and a gauge series with equal timestamps.  On equal
+timestamps the gauge keeps the value of one of the two datapoints — which one depends on whether the source compares
+strictly (`Facts.rel_MergeGauge`); either satisfies C07, so the example says "one of them", not which. -/
 example :
     let a : MM Int := { counters := [(("c", ""), { value := 2, ts := 5, src := "", tags := [] })],
                         gauges := [(("g", ""), { value := 1, ts := 7, src := "", tags := [] })] }
@@ -539,8 +541,8 @@ example :
     a.WF ∧ b.WF ∧
     (lookup ("c", "") (MM.merge a b).counters).map (fun c => (c.value, c.ts)) = some (5, 9) ∧
     (lookup ("c", "") (MM.merge b a).counters).map (fun c => (c.value, c.ts)) = some (5, 9) ∧
-    (lookup ("g", "") (MM.merge a b).gauges).map (fun g => (g.value, g.ts)) = some (1, 7) ∧
-    (lookup ("g", "") (MM.merge b a).gauges).map (fun g => (g.value, g.ts)) = some (2, 7) := by
+    ((lookup ("g", "") (MM.merge a b).gauges).map (fun g => (g.value, g.ts)) ∈ [some (1, 7), some (2, 7)]) ∧
+    ((lookup ("g", "") (MM.merge b a).gauges).map (fun g => (g.value, g.ts)) ∈ [some (1, 7), some (2, 7)]) := by
   refine ⟨⟨by decide, by decide, by decide, by decide⟩, ⟨by decide, by decide, by decide, by decide⟩, ?_, ?_, ?_, ?_⟩ <;> decide
 
 end Gsd
